@@ -8,6 +8,8 @@ nuclide) — no node name occurs twice.  `names_cex1…5` in `Proofs/Diagram.lea
 `DiagramWF` hypothesis is needed.
 -/
 import RdVerif.Proofs.Diagram
+import RdVerif.Proofs.DiagramReach
+import RdVerif.Proofs.ReachWFb
 
 namespace RdVerif.C16
 open RdVerif
@@ -25,5 +27,53 @@ theorem C16_edges_from_links (ds : Dataset) (root : Nat) :
 theorem C16_node_names_nodup (ds : Dataset) (hwf : DiagramWF ds) (root : Nat) :
     ((buildDigraph ds root).nodes.map (·.name)).Nodup :=
   node_names_nodup ds hwf root
+
+/-! ### node set = reachable set, rows = minimum number of decays — for every dataset satisfying `ReachWF`
+(`DiagramWF`, names injective on members, link targets are members, stable nuclides list no progeny, the only
+non-member progeny is `SF`): five plain conditions on the dataset, none mentioning the builder. -/
+
+/-- every node is a nuclide reachable through the progeny links, or the `_SF` node of one -/
+theorem C16_nodes_sound (ds : Dataset) (h : ReachWF ds) (root : Nat) (hr : root < ds.n) :
+    ∀ nd ∈ (buildDigraph ds root).nodes,
+      (∃ k, Reach ds root k ∧ nd.name = get2 ds.names k []) ∨
+      (∃ p, Reach ds root p ∧ (∃ l ∈ get2 ds.links p [], l.idx = none) ∧
+        nd.name = sfName (get2 ds.names p [])) :=
+  nodes_sound ds h root hr
+
+/-- every reachable nuclide has a node -/
+theorem C16_nodes_complete (ds : Dataset) (h : ReachWF ds) (root : Nat) (hr : root < ds.n) :
+    ∀ k, Reach ds root k → get2 ds.names k [] ∈ (buildDigraph ds root).nodes.map (·.name) :=
+  nodes_complete ds h root hr
+
+/-- every nuclide's node sits on the row equal to its minimum number of decays from the root -/
+theorem C16_rows_are_distances (ds : Dataset) (h : ReachWF ds) (root : Nat) (hr : root < ds.n) :
+    ∀ nd ∈ (buildDigraph ds root).nodes, ∀ k, k < ds.n → nd.name = get2 ds.names k [] →
+      PathN ds root k nd.gen ∧ ∀ m, PathN ds root k m → nd.gen ≤ m :=
+  gen_is_distance ds h root hr
+
+/-- the loop's fuel `n + 1` always suffices: the work queue ends empty -/
+theorem C16_queue_drained (ds : Dataset) (h : ReachWF ds) (root : Nat) (hr : root < ds.n) :
+    (bfsLoop ds (ds.n + 1)
+      ({ queue := [(root, 0, 0)], seen := [get2 ds.names root []], gmx := [(0, 0)],
+         nodes := [DNode.mk (get2 ds.names root []) 0 0], edges := [] } : DState)).queue = [] :=
+  queue_drained ds h root hr
+
+/-- **the executable checker suffices**: for every dataset on which `reachWFb` (Model/ReachWF.lean, evaluated by the
+driver on each run-time dataset) returns `true`, and every root, the diagram's nodes are exactly the reachable nuclides
+(+ SF nodes), each on the row of its minimum number of decays, no two on one position, names distinct, and every edge
+a listed link -/
+theorem C16_checked_dataset (ds : Dataset) (h : reachWFb ds = true) (root : Nat) (hr : root < ds.n) :
+    (∀ nd ∈ (buildDigraph ds root).nodes,
+      (∃ k, Reach ds root k ∧ nd.name = get2 ds.names k []) ∨
+      (∃ p, Reach ds root p ∧ (∃ l ∈ get2 ds.links p [], l.idx = none) ∧
+        nd.name = sfName (get2 ds.names p []))) ∧
+    (∀ k, Reach ds root k → get2 ds.names k [] ∈ (buildDigraph ds root).nodes.map (·.name)) ∧
+    (∀ nd ∈ (buildDigraph ds root).nodes, ∀ k, k < ds.n → nd.name = get2 ds.names k [] →
+      PathN ds root k nd.gen ∧ ∀ m, PathN ds root k m → nd.gen ≤ m) ∧
+    ((buildDigraph ds root).nodes.map (·.name)).Nodup ∧
+    ((buildDigraph ds root).nodes.map (fun n => (n.gen, n.xpos))).Nodup :=
+  have w := reachWF_of_reachWFb ds h
+  ⟨nodes_sound ds w root hr, nodes_complete ds w root hr, gen_is_distance ds w root hr,
+   node_names_nodup ds w.wf root, positions_injective ds root⟩
 
 end RdVerif.C16
